@@ -1,4 +1,4 @@
-//! pipeline area (C01, C18): the library's five writers and its reader against coq/Model/Pipeline.v run
+//! pipeline area (C01, C18, C03): the library's five writers and its reader against coq/Model/Pipeline.v run
 //! with the real AES-256 / Camellia-256 models (coq/Model/Aes.v, Camellia.v), byte for byte.
 //! Case formats: see the head of coq/Model/PipelineRun.v.
 //!
@@ -11,6 +11,12 @@
 //! implementation alone: decoded = written for every entry (through the library with the case's read-buffer
 //! sizes, again with other sizes, and through refdec without libpna), metadata = written, sizes exact.
 //! The model computes the same outcome from the spec: with compression = store it predicts every byte.
+//! For C03 the generator re-cuts every FDAT / SDAT run of what the writers produced (1-byte chunks, 7, 16, 17/15/1,
+//! zero-length chunks, cuts inside the IV and inside cipher blocks), sometimes after cutting the data short (short IV,
+//! CBC stream that is not a whole number of blocks, missing last block), and emits `decode` cases on the re-cut bytes
+//! whose sixth argument is another framing of the same data: the model's decode_normal / decode_solid with the real
+//! ciphers must agree with the real readers on the re-cut input, and the two framings must decode alike (contents or
+//! errors) on the implementation.
 #[allow(unused_imports)]
 use libpna::prelude::*;
 use libpna::*;
@@ -896,6 +902,17 @@ fn run_decode(c: &Case, oracle: &mut Vec<String>) -> String {
     if out != again {
         oracle.push("C01: the decoded entries depend on the read buffer sizes".to_string());
     }
+    // C03: another framing of the same data chunks (sixth argument) decodes to the same entries, contents and errors
+    match arg(c, 5) {
+        "" | "-" => {}
+        h => {
+            let other = unhex_item(h);
+            let o2 = show_decoded(guard(|| lib_decode(&other, pw.as_deref(), &other_bufs(&bufs))));
+            if o2 != out {
+                oracle.push(format!("C03: two framings of the same data chunks decode differently: {} / {}", out.chars().take(300).collect::<String>(), o2.chars().take(300).collect::<String>()));
+            }
+        }
+    }
     out
 }
 
@@ -1095,6 +1112,10 @@ fn grid(r: &mut Rng, k: usize) -> (Cfg, usize) {
 
 /// the case lines of one scenario: the writer case and the decode case of what it produced
 fn scenario(r: &mut Rng, k: usize, big: bool, idx: usize) -> Vec<String> {
+    let (op, items, pw, bufs) = scenario_items(r, k, big);
+    emit(r, op, &items, &pw, &bufs, idx)
+}
+fn scenario_items(r: &mut Rng, k: usize, big: bool) -> (&'static str, Vec<Item>, String, Vec<usize>) {
     let (cfg, writer) = grid(r, k);
     let pw = gen_pw(r);
     let bufs = if big { vec![4096] } else { gen_bufs(r) };
@@ -1134,11 +1155,15 @@ fn scenario(r: &mut Rng, k: usize, big: bool, idx: usize) -> Vec<String> {
             ("sarch", vec![Item::SA(cfg.clone(), inner)])
         }
     };
-    emit(r, op, &items, &pw, &bufs, idx)
+    (op, items, pw, bufs)
 }
 
 /// several items in one archive: built entries of all kinds, streamed files, a solid entry in between
 fn scenario_arch(r: &mut Rng, k: usize, idx: usize) -> Vec<String> {
+    let (items, pw, bufs) = scenario_arch_items(r, k);
+    emit(r, "arch", &items, &pw, &bufs, idx)
+}
+fn scenario_arch_items(r: &mut Rng, k: usize) -> (Vec<Item>, String, Vec<usize>) {
     let pw = gen_pw(r);
     let bufs = gen_bufs(r);
     let cnt = r.range(0, 4) as usize;
@@ -1153,7 +1178,113 @@ fn scenario_arch(r: &mut Rng, k: usize, idx: usize) -> Vec<String> {
             _ => Item::N(gen_spec(r, 'b', &cfg, i, n)),
         });
     }
-    emit(r, "arch", &items, &pw, &bufs, idx)
+    (items, pw, bufs)
+}
+
+// ------------------------------------------------------------------------------------------ C03: re-cut archives
+/// pieces of `data` with sizes taken cyclically from `sizes` (zero sizes give empty pieces; all zero = one piece)
+fn cut_by(sizes: &[usize], data: &[u8]) -> Vec<Vec<u8>> {
+    if sizes.iter().sum::<usize>() == 0 {
+        return vec![data.to_vec()];
+    }
+    let mut out = Vec::new();
+    let (mut pos, mut i) = (0, 0);
+    while pos < data.len() {
+        let s = sizes[i % sizes.len()].min(data.len() - pos);
+        out.push(data[pos..pos + s].to_vec());
+        pos += s;
+        i += 1;
+    }
+    out
+}
+fn put_chunk(out: &mut Vec<u8>, ty: &[u8; 4], data: &[u8]) {
+    out.extend_from_slice(&(data.len() as u32).to_be_bytes());
+    out.extend_from_slice(ty);
+    out.extend_from_slice(data);
+    out.extend_from_slice(&refdec::crc32(ty, data).to_be_bytes());
+}
+/// the archive with every run of consecutive FDAT (resp. SDAT) chunks cut short to `keep(run length)` bytes and
+/// re-cut with `cuts`; every other chunk as it is (length and CRC rewritten)
+fn recut_bytes(bytes: &[u8], cuts: &[usize], keep: &dyn Fn(usize) -> usize) -> Result<Vec<u8>, String> {
+    let cs = refdec::part_chunks(bytes).map_err(|w| format!("{}: {}", w.0, w.1))?;
+    let mut out = refdec::SIG.to_vec();
+    let mut run: Option<([u8; 4], Vec<u8>)> = None;
+    let flush = |out: &mut Vec<u8>, run: &mut Option<([u8; 4], Vec<u8>)>| {
+        if let Some((ty, buf)) = run.take() {
+            let k = keep(buf.len()).min(buf.len());
+            for p in cut_by(cuts, &buf[..k]) {
+                put_chunk(out, &ty, &p);
+            }
+        }
+    };
+    for c in cs {
+        let is_data = &c.ty == b"FDAT" || &c.ty == b"SDAT";
+        if let Some((rty, buf)) = &mut run {
+            if is_data && *rty == c.ty {
+                buf.extend_from_slice(&c.data);
+                continue;
+            }
+        }
+        flush(&mut out, &mut run);
+        if is_data {
+            run = Some((c.ty, c.data));
+        } else {
+            put_chunk(&mut out, &c.ty, &c.data);
+        }
+    }
+    Ok(out)
+}
+fn gen_cuts(r: &mut Rng) -> Vec<usize> {
+    match r.below(8) {
+        0 => vec![1],                   // 1-byte chunks
+        1 => vec![0, 1, 0, 0, 15],      // zero-length chunks, cuts inside the IV
+        2 => vec![7],                   // never on a block boundary
+        3 => vec![16],
+        4 => vec![17, 15, 1],
+        5 => vec![1, 0, 7, 16],
+        6 => (0..r.range(1, 6)).map(|_| r.range(0, 40) as usize).collect(),
+        _ => vec![r.range(1, 5000) as usize],
+    }
+}
+/// one decode case on a re-cut of what the scenario's writers produced; the sixth argument is another framing of the
+/// same data (the archive as produced, or a second re-cut when the data was cut short)
+fn emit_recut(r: &mut Rng, items: &[Item], pw: &str, bufs: &[usize], short: Option<u64>) -> Vec<String> {
+    let mut tabs = Tables::default();
+    let (bytes, _texts) = match produce(items, pw, &mut tabs) {
+        Ok(x) => x,
+        Err(e) => return vec![format!("decode\t-\t-\t-\t{}\t-\tGENFAIL {}", show_bufs(bufs), e.replace(['\t', '\n'], " "))],
+    };
+    let cuts = gen_cuts(r);
+    // cutting the data short is modelled for store only (what a decompressor makes of a truncated stream is not)
+    let store_normal = items.iter().all(|it| matches!(it, Item::N(s) if s.cfg.comp == 0));
+    let how = short.unwrap_or(0);
+    let short = store_normal && !items.is_empty() && short.is_some();
+    let n16 = r.below(16) as usize;
+    let keep = move |n: usize| -> usize {
+        if !short {
+            return n;
+        }
+        match how {
+            0 => n.saturating_sub(1),          // CBC: the last block is partial
+            1 => n.saturating_sub(16),         // CBC: the last block is missing (padding of the one before)
+            2 => n.saturating_sub(17),
+            3 => n16.min(n),                   // encrypted: the IV is short
+            _ => 16.min(n),                    // encrypted: the IV and nothing else
+        }
+    };
+    let (first, second) = if short {
+        let other = gen_cuts(r);
+        (recut_bytes(&bytes, &cuts, &keep), recut_bytes(&bytes, &other, &keep))
+    } else {
+        (recut_bytes(&bytes, &cuts, &keep), Ok(bytes.clone()))
+    };
+    let (first, second) = match (first, second) {
+        (Ok(a), Ok(b)) => (a, b),
+        (Err(e), _) | (_, Err(e)) => return vec![format!("decode\t-\t-\t-\t{}\t-\tGENFAIL {}", show_bufs(bufs), e.replace(['\t', '\n'], " "))],
+    };
+    let encrypted = !tabs.v.is_empty();
+    let pwh = hex_item(pw.as_bytes());
+    vec![format!("decode\t{}\t{}\t{}\t{}\t{}\t{}", hex_item(&first), tabs.vtext(), tabs.dtext(), show_bufs(bufs), if encrypted { pwh } else { "-".to_string() }, hex_item(&second))]
 }
 
 /// every scenario gives a writer case and a decode case; every fourth one a second decode case (no password, or
@@ -1237,6 +1368,28 @@ fn gen(prop: &str, tier: &str, seed: u64) -> Vec<String> {
     let mut v = Vec::new();
     let mut k = r.below(200) as usize;
     let mut idx = 0;
+    if prop == "C03" {
+        // re-cut archives through the reader only: 44 + 10 + 15 / 2400 + 400 + 600 decode cases
+        let (n_grid, n_arch, n_short) = if thorough { (2400, 400, 600) } else { (44, 10, 15) };
+        for _ in 0..n_grid {
+            let (_, items, pw, bufs) = scenario_items(&mut r, k, false);
+            v.extend(emit_recut(&mut r, &items, &pw, &bufs, None));
+            k += 1;
+        }
+        for _ in 0..n_arch {
+            let (items, pw, bufs) = scenario_arch_items(&mut r, k);
+            v.extend(emit_recut(&mut r, &items, &pw, &bufs, None));
+            k += 3;
+        }
+        // data cut short, then framed in two ways: store x every cipher and mode x EntryBuilder / write_file x KDF
+        for i in 0..n_short {
+            let kk = 4 * (i % 5) + 20 * ((i / 5) % 2) + 100 * ((i / 10) % 2);
+            let (_, items, pw, bufs) = scenario_items(&mut r, kk, false);
+            v.extend(emit_recut(&mut r, &items, &pw, &bufs, Some(((i / 5) + i) as u64 % 5)));
+        }
+        let _ = idx;
+        return v;
+    }
     for _ in 0..n_grid {
         v.extend(scenario(&mut r, k, false, idx));
         k += 1;
